@@ -143,6 +143,8 @@ def eval_script(args):
                 if p2 != p1:
                     import difflib
                     r['fails'].append({'pred': 'not-idempotent',
+                                       'reorder_only': sorted(p1.split('\n')) == sorted(p2.split('\n')),
+                                       'has_hr': 'hierarchical ruleset' in p1,
                                        'diff': [l for l in difflib.unified_diff(p1.split('\n'), p2.split('\n'), lineterm='', n=0)][:10]})
             except tc.Timeout:
                 raise
@@ -254,7 +256,7 @@ def classify(f, txt='', p1=None):
                         'prettify output does not parse: a small Number literal is printed as `0.`', True)
             return ("ASTString:_handle_literal:renders as 'N.' with a dangling '.' (not a token)",
                     'prettify output does not parse: a Number literal is printed as `N.` (all fractional digits stripped)', True)
-    if p == 'not-idempotent' and p1 and 'hierarchical ruleset' in p1 and sorted(x[1:] for x in f['diff'] if x[:1] == '-' and x[:3] != '---') == sorted(x[1:] for x in f['diff'] if x[:1] == '+' and x[:3] != '+++'):
+    if p == 'not-idempotent' and f.get('has_hr') and f.get('reorder_only'):
         return ('DAG:sort_hr_rules:rule order not stable, prettify(prettify(s)) reorders the rules of a hierarchical ruleset again',
                 'prettify is not idempotent on a hierarchical ruleset: the topological rule order printed by the first pass is changed by the second', True)
     if p in ('prettify-raises', 'prettify-of-output-raises'):
